@@ -151,8 +151,9 @@ func (j *cacheJanitor[MetadataT]) cleanExpiredEntries() {
 		slog.Info("Removed expired cache entry for key", "key", key.Hex)
 	}
 
+	// (The reported size is kept by the stores and removals themselves. Writing the size read here
+	// over it would lose the update of any store or removal that ran in between.)
 	endCacheSize := j.cacheFns.getCacheSize()
-	metrics.Global.Cache.BytesCached.Set(endCacheSize)
 	metrics.Global.Cache.BytesCleaned.Add(startCacheSize - endCacheSize)
 
 	slog.Info("Cache cleanup complete", "new_size", endCacheSize)
@@ -232,7 +233,6 @@ func (j *cacheJanitor[MetadataT]) evict(maxCacheBytes int64) {
 	}
 
 	endCacheSize := j.cacheFns.getCacheSize()
-	metrics.Global.Cache.BytesCached.Set(endCacheSize)
 	metrics.Global.Cache.BytesCleaned.Add(startCacheSize - endCacheSize)
 
 	slog.Info("Cache eviction complete", "evicted_entries", evictions, "new_size", endCacheSize)
